@@ -468,10 +468,15 @@ def case_strategy():
 
     def related(draw, s, mk, elem):
         """a second string related to s: equal, prefix, one element changed, case flipped, independent"""
-        mode = draw(st.integers(0, 5))
+        mode = draw(st.integers(0, 6))
         s = list(s)
         if mode == 0:
             return s
+        if mode == 6 and s:
+            # one element differing by a single bit (bit 7 and bit 0 favoured: sign / lowest-bit tricks)
+            k = draw(st.integers(0, len(s) - 1))
+            bit = draw(st.sampled_from([7, 7, 0, 0, 1, 2, 3, 4, 5, 6]))
+            return s[:k] + [s[k] ^ (1 << bit)] + s[k + 1:]
         if mode == 1:
             return s[:draw(st.integers(0, len(s)))]
         if mode == 2 and s:
